@@ -49,7 +49,7 @@ class Cfg:
     def __init__(self, naming="distinct", method_form=0.3, members=None, called_lambdas=True, odd_selectors=False,
                  containers=True, ifexp=True, keywords_in_called=True, first=True, lists=True, dict_attr=True,
                  comprehension=False, count_fn=True, first_on_seq=True, genexp=False,
-                 captures=False, helpers=False, record_ctor=False, free_scalar=False, first_of_packages=True, higher_order=False, kwonly_in_called=False, dict_method_keys=False, duplicate_keys=True, seq_of_packages=False, starred_literals=False):
+                 captures=False, helpers=False, record_ctor=False, free_scalar=False, first_of_packages=True, higher_order=False, kwonly_in_called=False, dict_method_keys=False, duplicate_keys=True, seq_of_packages=False, starred_literals=False, starred_calls=False):
         self.naming = naming
         self.method_form = method_form
         self.members = members or MEMBERS
@@ -75,6 +75,7 @@ class Cfg:
         self.duplicate_keys = duplicate_keys
         self.seq_of_packages = seq_of_packages
         self.starred_literals = starred_literals
+        self.starred_calls = starred_calls or starred_literals
         self.free_scalar = free_scalar
 
 
@@ -563,6 +564,12 @@ def _called_lambda(cx: Ctx, env, ty, depth):
         p, q = cx.fresh(env), cx.fresh(env)
         if p != q:
             return cx.pick([f"(lambda {p}, {q}: {p} - {q})(*({a}, {b}))", f"(lambda {p}, {q}: {p} - {q})(**{{'{p}': {a}, '{q}': {b}}})", f"(lambda {p}, {q}: {p} - {q})({a}, *({b},))"])
+    if cx.cfg.starred_calls and ty == I and cx.chance(1) and seq_paths(cx, env):
+        # a sequence handed over as star-arguments to a lambda that takes any number of them (no literal involved: a value like
+        # any other, also as a member of a package)
+        se, sty = cx.pick(seq_paths(cx, env))
+        r_ = cx.fresh(env)
+        return f"(lambda *{r_}: Count({r_}))(*{_fill(cx, se)})"
     if ty in (I, F) and cx.chance(1):
         # a parameterless called lambda (what an inlined zero-argument helper looks like), with a use of the variables in scope
         # to its right
